@@ -11,6 +11,7 @@ package util
 //@   ensures monotone [C02]: pos(r) >= old(pos(r))
 //@   ensures bounded [C09]: err == nil ==> len(result0) <= MaxAllowedSectionSize
 //@   ensures consumed [C01]: err == nil ==> pos(r) == old(pos(r)) + vsize(len(result0)) + len(result0)
+//@   ensures within_limit [C09]: pos(r) > old(pos(r)) ==> pos(r) <= lim(r)
 
 //@ func ReadNode
 //@   modifies pos(br)
@@ -18,6 +19,7 @@ package util
 //@   let n, c, cerr := call[cid.CidFromReader#0]
 //@   ensures split [C01]: err == nil ==> bytelen(result0) + len(result1) == len(data) && bytelen(result0) == n
 //@   ensures consumed [C01]: err == nil ==> pos(br) == old(pos(br)) + vsize(len(data)) + len(data)
+//@   ensures progress [C09]: err == nil ==> pos(br) > old(pos(br)) && pos(br) <= lim(br)
 
 //@ func LdWrite
 //@   requires few: len(d) <= 16
